@@ -152,19 +152,9 @@ class FunctionTranslator:
             kind, payload = self.stmt_leaves[key]
             if kind == 'skip':
                 return '(Ok (Normal st))'
-            if kind == 'set':            # payload: [(var, gallina value)]
-                st = 'st'
-                for var, val in payload:
-                    st = self.setter(var, self.fill(val), 'st') if st == 'st' else st
-                if len(payload) != 1:
-                    cur = 'st'
-                    text = None
-                    for var, val in payload:
-                        text = '(let st := %s in ' % self.setter(var, self.fill(val)) + (text or '')
-                    # nested lets, innermost returns
-                    lets = ''.join('(let st := %s in ' % self.setter(var, self.fill(val)) for var, val in payload)
-                    return lets + '(Ok (Normal st))' + ')' * len(payload)
-                return '(Ok (Normal %s))' % st
+            if kind == 'set':            # payload: [(var, gallina value)], applied in order
+                lets = ''.join('(let st := %s in ' % self.setter(var, self.fill(val)) for var, val in payload)
+                return lets + '(Ok (Normal st))' + ')' * len(payload)
             if kind == 'setM':           # payload: (var, gallina res value)
                 var, val = payload
                 return '(bind %s (fun v__ => Ok (Normal %s)))' % (self.fill(val), self.setter(var, 'v__'))
@@ -197,8 +187,8 @@ class FunctionTranslator:
             else:
                 k, t = self.expr(node.value)
             if k in ('pure', 'cond'):
-                return '(Ok (Ret %s))' % t
-            return '(bind %s (fun v__ => Ok (Ret v__)))' % t
+                return '(Ok (Ret (st, %s)))' % t
+            return '(bind %s (fun v__ => Ok (Ret (st, v__))))' % t
         if isinstance(node, ast.If):
             k, t = self.cond(node.test)
             a = self.block(node.body)
@@ -234,6 +224,7 @@ class FunctionTranslator:
         if isinstance(node, ast.Try):
             if node.finalbody or node.orelse:
                 self.fail(node, 'try/finally, try/else')
+            self.check_try(node)
             body = self.block(node.body)
             out = 'Raise e__'
             for h in reversed(node.handlers):
@@ -256,6 +247,49 @@ class FunctionTranslator:
             return '(match %s with Raise e__ => %s | r__ => r__ end)' % (body, out)
         self.fail(node, 'statement outside the translated subset')
 
+    # a handler runs on the state from before the `try` (assignments made by the part of the body that ran
+    # are dropped).  That is only faithful if nothing reads them: refuse otherwise.
+    @staticmethod
+    def _assigned(nodes):
+        out = set()
+        for n in nodes:
+            for x in ast.walk(n):
+                if isinstance(x, ast.Name) and isinstance(x.ctx, ast.Store):
+                    out.add(x.id)
+        return out
+
+    @staticmethod
+    def _loaded(nodes):
+        out = set()
+        for n in nodes:
+            for x in ast.walk(n):
+                if isinstance(x, ast.Name) and isinstance(x.ctx, ast.Load):
+                    out.add(x.id)
+        return out
+
+    def check_try(self, node):
+        body_assigned = self._assigned(node.body) & set(l[0] for l in self.locals)
+        if not body_assigned:
+            return
+        inside = set(id(x) for b in node.body for x in ast.walk(b))
+        outside_loads = set()
+        for x in ast.walk(self.f):
+            if id(x) in inside:
+                continue
+            if isinstance(x, ast.Name) and isinstance(x.ctx, ast.Load):
+                outside_loads.add(x.id)
+        for h in node.handlers:
+            # variables every path of the handler assigns at its top level before anything else reads them
+            top = set()
+            for stmt_ in h.body:
+                if isinstance(stmt_, ast.Assign) and len(stmt_.targets) == 1 and isinstance(stmt_.targets[0], ast.Name) \
+                        and not (self._loaded([stmt_.value]) & body_assigned):
+                    top.add(stmt_.targets[0].id)
+            ends = h.body and isinstance(h.body[-1], (ast.Return, ast.Raise))
+            risky = (body_assigned - top) & (self._loaded(h.body) | (set() if ends else outside_loads))
+            if risky:
+                self.fail(node, 'handler or later code may read %s assigned inside the try body' % sorted(risky))
+
     # ---- whole function
     def translate(self):
         out = []
@@ -267,8 +301,8 @@ class FunctionTranslator:
         out.append('Definition %s %s : res (%s) :=' % (n, self.s['params'], self.s['returns']))
         out.append('  let st := %s in' % init)
         out.append('  match %s with' % body)
-        out.append('  | Ok (Ret r__) => Ok r__')
-        out.append('  | Ok _ => %s' % self.s.get('falloff', 'Raise EUnmodelled'))
+        out.append('  | Ok (Ret (st, r__)) => %s' % self.fill(self.s.get('finish', 'Ok r__')))
+        out.append('  | Ok (Normal st) | Ok (Brk st) | Ok (Cont st) => %s' % self.fill(self.s.get('falloff', 'Raise EUnmodelled')))
         out.append('  | Raise e__ => Raise e__')
         out.append('  end.')
         unused = [k for k in list(self.leaves) + list(self.stmt_leaves) if k not in self.used_leaves]
@@ -291,18 +325,24 @@ def find_function(tree, qualname):
     return node
 
 
-def translate_module(path, schemas, header):
+def translate_module(repo, mod, header):
     """-> Gallina text for all scheduled functions of one source file; raises Unsupported"""
+    import os
+    path = os.path.join(repo, mod['path'])
     src = open(path).read()
     tree = ast.parse(src)
-    out = [header]
-    notes = []
-    for sch in schemas:
-        f = find_function(tree, sch['qualname'])
-        text, unused = FunctionTranslator(path, f, sch).translate()
+    out = [header % {'path': mod['path'], 'imports': mod.get('imports', '')}, mod.get('prelude', '')]
+    for sch in mod['functions']:
+        try:
+            f = find_function(tree, sch['qualname'])
+        except KeyError:
+            raise Unsupported(tree, 'function %s not found' % sch['qualname'], mod['path'])
+        text, unused = FunctionTranslator(mod['path'], f, sch).translate()
         if unused:
-            raise Unsupported(f, 'schema leaves that no longer occur in the source: %r' % unused[:3], path)
-        out.append('(* translated from %s : %s *)' % (path, sch['qualname']))
+            raise Unsupported(f, 'leaf-table entries that no longer occur in %s: %r' % (sch['qualname'], unused[:3]),
+                              mod['path'])
+        out.append('(* translated from %s : %s *)' % (mod['path'], sch['qualname']))
         out.append(text)
         out.append('')
+    out.append(mod.get('epilogue', ''))
     return '\n'.join(out)
